@@ -24,7 +24,7 @@ def proj_acc(a):
              'name': e.field if isinstance(e, (optree.NamedTupleEntry, optree.StructSequenceEntry)) else ''} for e in a]
 
 
-EVAL_GLOBALS = {'KOrd': U.KOrd, 'KUnord': U.KUnord, 'AOrd': U.Wrap.AOrd}
+EVAL_GLOBALS = {'KOrd': U.KOrd, 'KUnord': U.KUnord, 'AOrd': U.Wrap.AOrd, 'KTie': U.KTie}
 
 
 def accessor_laws(accs, obj, ctx, spec):
